@@ -55,7 +55,7 @@ impl BadShared {
                 history: Vec::new(),
                 scratch: Rc::new(RefCell::new(Vec::new())),
                 seen: HashMap::new(),
-                deque: vec![0.0; period].into_boxed_slice(),
+                deque: vec![0.0; period + 1].into_boxed_slice(), // K2: overflow panic in a constructor
             }),
         }
     }
